@@ -108,6 +108,14 @@ class VC:
         self.functions[key] = dict(fn=key, lines='%d-%d' % (l0, l1), sha256=sha)
         return key
 
+    def under_contract_if_present(self, relpath, qualpath):
+        """an auxiliary function (a nested helper the main function calls): counted when it is there and executed; a rename / inlining
+        of the helper alone does not stop the contract of the function that uses it from being checked"""
+        try:
+            return self.under_contract(relpath, qualpath)
+        except Unsupported:
+            return None
+
     def add(self, name, hyps, goal, kind='proof', path=None, info=None):
         if self.bounded_label and kind == 'proof':
             kind = 'bounded'
@@ -327,7 +335,10 @@ def yields_of(events):
 def same_row(a, b):
     """z3 formula: row contents a == b (a, b: Row or RowSnap)"""
     k = z3.Const('__rk', StrS)
-    return z3.And(a.dom == b.dom, z3.ForAll([k], z3.Implies(a.dom[k], a.val[k] == b.val[k])))
+    # pointwise (extensionality spelled out): as a GOAL its negation is an existential, i.e. one skolem key at which the two
+    # rows differ -- the solver then returns a counter-model (`sat`) for a wrong row instead of `unknown` on an equality of
+    # lambda arrays (DESIGN 2.3)
+    return z3.ForAll([k], z3.And(a.dom[k] == b.dom[k], z3.Implies(a.dom[k], a.val[k] == b.val[k])))
 
 
 def value_matches(it, got, want):
